@@ -619,6 +619,7 @@ class Runner:
             for n, must in e["must"].items():
                 if not must and n in o["isset"] and o["isset"][n] != e["isset"][n]:
                     self.soft += 1          # DESIGN's IsSet rule where the statement does not demand anything
+        self.ctx.traces_validated += 1       # one struct-object trace replayed into the generated code and judged
         self.nstruct = getattr(self, "nstruct", 0) + 1
         if len(obs) > 2 and self.nstruct % 397 == 50:
             self.ctx.sample({"struct": tc["struct"]["name"], "type": tc["sig"], "way": tc["way"], "cfg": u.cfg,
